@@ -42,6 +42,7 @@ func TestMain(m *testing.M) {
 	logger.Disable()
 	std.RegisterHints()
 	solver.RegisterHint(logHint)
+	registerVReplay()
 	for _, k := range []string{"engine", "compiled", "adv", "f11probe"} {
 		ev.RegisterReplay(k, func(raw json.RawMessage) string {
 			var c Case
